@@ -82,7 +82,7 @@ prop("C01", ["PepitVerif/Props/C01.lean", "PepitVerif/Math/CvxSem.lean", "PepitV
      trusted=["scripted wrapper (Wrapper subclass) standing for the solver in symbolic streams"],
      assumptions=["that the numbers a real solver returns satisfy KKT is runtime behaviour: monitored by the numeric oracle, not proved"])
 
-prop("C02", ["PepitVerif/Props/C02.lean", "PepitVerif/Props/C13.lean"], only=[r"C02\.", "fresh_expr_latest"],
+prop("C02", ["PepitVerif/Props/C02.lean", "PepitVerif/Props/C13.lean"], only=[r"C02\.", "expr_latest", "eval_pure"],
      streams=[stream("resolve (eval of points/expressions/constraints after scripted solves)", "resolve", 150, 3000, offset=7)],
      direct=[oracle("c02_instance", 12, 150)],
      assumptions=["eigendecomposition/QR accuracy and feasibility up to solver tolerance are floating-point facts: monitored numerically, not proved"])
@@ -92,11 +92,11 @@ prop("C03", ["PepitVerif/Props/C03.lean", "PepitVerif/Props/C03LMI.lean", "Pepit
      direct=[oracle("c03_members", 40, 600)],
      trusted=["class membership predicates in first-order form (the equivalence with 'gradient is L-Lipschitz' is textbook and not re-proved)"])
 
-prop("C04", ["PepitVerif/Props/C04.lean", "PepitVerif/Math/PairsSem.lean", "PepitVerif/Math/ClassForms.lean"],
+prop("C04", ["PepitVerif/Props/C04.lean", "PepitVerif/Props/C04Suff.lean", "PepitVerif/Math/PairsSem.lean", "PepitVerif/Math/ClassForms.lean"],
      streams=[stream("cls (glue: which lists, skip rule, symmetry, tables) on random interleavings", "cls", 200, 4000, offset=11)],
      direct=[oracle("c04_orders", 30, 400), oracle("c04_counts", 120, 2000)],
      trusted=["hand transcription of the documented conditions (Canon.*)"],
-     assumptions=["sufficiency of the interpolation conditions (converse interpolation theorems) is literature-trusted, not proved"])
+     assumptions=["sufficiency of the interpolation conditions is proved for ConvexFunction, ConvexLipschitzFunction and StronglyConvexFunction (C04Suff.lean); for the smooth classes (conjugation argument) and the operator classes (Kirszbraun-type extensions) it is literature-trusted, not proved"])
 
 prop("C05", ["PepitVerif/Props/C05.lean", "PepitVerif/Math/MatricesSem.lean", "PepitVerif/Math/SparseSem.lean"],
      streams=[stream("collect+tee (sent list, dense matrices, MOSEK Task call list)", "collect", 120, 2500, env={"PEPV_TEE": "1", "STUBS": "1"})],
